@@ -173,7 +173,7 @@ ColLeaf(f, lf, col) ==
        IF ~mixed /\ col.typ # ac.typ THEN St("err")
        ELSE IF col.typ = "enum" /\ lf.cmpk # "fn2" /\ col.vals # ac.vals THEN St("err")   \* built-ins compare ranks
        ELSE IF lf.cmpk = "fn2" THEN
-            IF lf.argt # FnType(typ) THEN St("err")
+            IF lf.argt # FnType(typ) \/ lf.rest # "bool" \/ lf.arity # 2 THEN St("err")
             ELSE LET t == [r \in 1..f.n |-> Lookup2(lf.tbl, lhs(r), rhs(r))] IN
                  IF \E r \in 1..f.n : t[r] = <<2>> THEN St("miss")
                  ELSE OkT([r \in 1..f.n |-> t[r] = <<0, 0, 1>>])
@@ -188,11 +188,11 @@ LeafTruth(f, lf) ==
   IF col.typ = "Undefined" THEN St("unspec")
   ELSE IF lf.cmpk = "bad" THEN (IF lf.arg.t = "col" /\ ~HasCol(f, lf.arg.s) THEN St("err") ELSE St("err"))
   ELSE IF lf.arg.t = "col" THEN
-       IF lf.cmpk = "fn1" THEN (IF ~HasCol(f, lf.arg.s) THEN St("err") ELSE St("unspec"))
+       IF lf.cmpk = "fn1" THEN (IF ~HasCol(f, lf.arg.s) \/ lf.rest # "bool" \/ lf.arity # 1 THEN St("err") ELSE St("unspec"))
        ELSE ColLeaf(f, lf, col)
   ELSE IF lf.cmpk = "fn2" THEN St("err")             \* two-argument predicate needs a column argument
   ELSE IF lf.cmpk = "fn1" THEN
-       IF lf.argt # FnType(col.typ) THEN St("err")
+       IF lf.argt # FnType(col.typ) \/ lf.rest # "bool" \/ lf.arity # 1 THEN St("err")
        ELSE LET t == [r \in 1..f.n |-> Lookup1(lf.tbl, col.cells[r])] IN
             IF \E r \in 1..f.n : t[r] = <<2>> THEN St("miss")
             ELSE OkT([r \in 1..f.n |-> t[r] = <<0, 0, 1>>])
